@@ -439,8 +439,25 @@ func genExprCase(r *rand.Rand) exprCase {
 		for i := 0; i < n; i++ {
 			toks = append(toks, tkn(lexer.ItemRPar, ")"))
 		}
-	default:
+	case roll < 9:
 		gen, toks = "mutated", mutate(r, genTyped(r, 1+r.Intn(2)))
+	default:
+		// long chains and deep nesting: ( A ) op ( B ) op ... (right nested by the grammar), NOT NOT ... , ((( ... )))
+		gen = "deep"
+		leaf := func() []*lexer.Token { return genThemed(r, []string{"?a", "?b", "?c"}, themes, 0) }
+		n := 4 + r.Intn(10)
+		for i := 0; i < n; i++ {
+			for j := r.Intn(3); j > 0; j-- {
+				toks = append(toks, tkn(lexer.ItemNot, "not"))
+			}
+			toks = append(toks, wrapParens(leaf(), 1+r.Intn(3))...)
+			if i < n-1 {
+				toks = append(toks, boolOp(r))
+			}
+		}
+		if r.Intn(2) == 0 {
+			toks = wrapParens(toks, 1+r.Intn(4))
+		}
 	}
 	bs := []string{"?a", "?b", "?c"}
 	var rows []table.Row
